@@ -136,6 +136,8 @@ def run_adapter(cfg, stim, backend="fast", max_cycles=None):
                 break
         else:
             quiet = 0
+    if hasattr(slave, "finish"):
+        slave.finish(t)
     r = AdapterRun()
     r.cfg, r.stim, r.dut, r.master, r.slave, r.cycles, r.completed = cfg, stim, dut, master, slave, t, done
     return r
@@ -159,6 +161,9 @@ def oracle_adapter(run, clause_prefix):
         else:
             expected.append((k, ref.read(op["addr"])))
     for e in s.lost:
+        if e[0] == "W-extra":
+            fs.append(dict(clause=P + ".extra_write_beat", key=e[0], what="stream-style controller-side port: more write-data beats than write commands were put on the port (a beat is left over at the end of the run)"))
+            break
         fs.append(dict(clause=P + ".lost_beat", key=e[0], what="controller-side %s at cycle %d (address 0x%x): the adapter was not %s when the one-cycle strobe arrived" % (
             e[0], e[1], e[3], "presenting write data" if e[0].startswith("W") else "ready for read data")))
         break
@@ -343,6 +348,8 @@ def run_cdc(cfg, stim, backend="fast", max_ticks=None):
                     break
             else:
                 quiet = 0
+    if hasattr(slave, "finish"):
+        slave.finish(tcount["sys"])
     r = AdapterRun()
     r.cfg, r.stim, r.dut, r.master, r.slave, r.cycles, r.completed = cfg, stim, dut, master, slave, tcount["user"], done
     r.xlog = xlog
